@@ -70,7 +70,7 @@ def make_goal(gs, times):
 
     class G(Goal):
         def function(self, op, em):
-            return goal_function(fn, op, em, path, float(times[tk]))
+            return goal_function(fn, op, em, path, float(times[tk])) + fnum(gs.get("offset", 0))
 
     g = G()
     g.priority = gs["prio"]
@@ -128,6 +128,10 @@ def build(case, extra_mixins=(), solver=None, qp=None, expand=None, map_mode=Non
                 o["keep_soft_constraints"] = True
             for k, v in case.get("options", {}).items():
                 o[k] = v if isinstance(v, bool) else fnum(v)
+            # options that depend on the priority being worked on (the mixins read them per priority)
+            cur = getattr(self, "_cur_prio", None)
+            for k, v in case.get("options_by_priority", {}).get(str(cur), {}).items():
+                o[k] = v if isinstance(v, bool) else fnum(v)
             return o
 
         def map_options(self):
@@ -157,6 +161,7 @@ def build(case, extra_mixins=(), solver=None, qp=None, expand=None, map_mode=Non
             return o
 
         def priority_started(self, priority):
+            self._cur_prio = int(priority)
             super().priority_started(priority)
             if snaps:
                 snaps[-1]["stores_after"] = read_stores(self, variant)
